@@ -7,8 +7,12 @@ import numpy as np
 
 from common import ModelError, R, cfl, fl, max_rel_err
 
-LEAN_MODULES = ["PyomaVerif.Props.C04", "PyomaVerif.Mutants.C04"]
+from common import wiring_pre_build as pre_build  # noqa: E402,F401
+
+LEAN_MODULES = ["PyomaVerif.Props.C04", "PyomaVerif.Mutants.C04", "PyomaVerif.Props.WiringRun"]
 THEOREMS = [
+    # call-site wiring of the class layer, regenerated from /repo on every run (translate_wiring.py)
+    "PV.WiringRun.C04_run_spectral_ms",
     "PV.C04.C04_shape",
     "PV.C04.C04_blocks",
     "PV.C04.C04_identical_refs",
